@@ -47,7 +47,8 @@ TraceFold ==
      /\ Judge(AllEqual(e.perm_hashes \o e.ins_hashes), "order_insertion")
      /\ Drift(ToSet(e.matched) = {r.id : r \in R}, "router_match")
      /\ Drift(/\ e.proj.hfr = [i \in 1..Len(a.hfs) |-> a.hfs[i].rid]
-              /\ e.proj.bfr = [i \in 1..Len(a.bfs) |-> a.bfs[i].rid]
+              \* in the rich (C06) shapes every text body filter of a rule has an HTML sibling in the same rule
+              /\ e.proj.bfr = (IF e.rich THEN [i \in 1..(2 * Len(a.bfs)) |-> a.bfs[(i + 1) \div 2].rid] ELSE [i \in 1..Len(a.bfs) |-> a.bfs[i].rid])
               /\ e.proj.traces = [i \in 1..Len(a.traces) |-> a.traces[i].id]
               /\ Len(e.proj.scu) = Len(a.scu)
               /\ (a.scu # <<>> => /\ e.proj.scu[1].code = a.scu[1].code /\ e.proj.scu[1].fb = a.scu[1].fb
